@@ -2,7 +2,9 @@
 Model of sm4/padding (streaming PKCS#7): `PKCS7PaddingReader.Read` over an arbitrary source
 behaviour, `PKCS7PaddingWriter.Write/Final`, and the `P7BlockEnc/P7BlockDecrypt` loops.
 Core Lean only; executable.  This models the repaired code (see KNOWN_FINDINGS.txt); `ReaderOld`
-keeps the pinned commit's decision "a short read means end of file" for the negative witness.
+keeps the pinned commit's decision "a short read means end of file" for the negative witness;
+`Writer.finalOld` keeps the `Final()` without the byte counter (sliding window only) for the witness
+`Props.C19.old_writer_accepts_misaligned`.
 -/
 import Gmsm.Util.Bytes
 namespace Model.Padding
@@ -88,18 +90,37 @@ structure Writer where
   cache : Bytes
   blockSize : Nat
   out : Bytes      -- everything forwarded to the underlying writer so far
+  written : Nat    -- `written`: the number of bytes accepted by `Write` so far (repair of C19 `padwriter`)
 
-def newWriter (bs : Nat) : Writer := ⟨[], bs, []⟩
+def newWriter (bs : Nat) : Writer := ⟨[], bs, [], 0⟩
 
-/-- `Write(buff)`: keep one block, forward the rest (in pieces of at most 1 KiB: same bytes) -/
+/-- `Write(buff)`: count the bytes, keep one block, forward the rest (in pieces of at most 1 KiB: same bytes) -/
 def Writer.write (w : Writer) (buff : Bytes) : Writer :=
   let c := w.cache ++ buff
+  let n := w.written + buff.length
   if c.length > w.blockSize then
-    { w with cache := c.drop (c.length - w.blockSize), out := w.out ++ c.take (c.length - w.blockSize) }
-  else { w with cache := c }
+    { w with cache := c.drop (c.length - w.blockSize), out := w.out ++ c.take (c.length - w.blockSize), written := n }
+  else { w with cache := c, written := n }
 
-/-- `Final()`: `none` = error -/
+/-- `Final()`: `none` = error.  The cache is only a sliding window over the last `blockSize` bytes, so the
+    block alignment of the whole stream is decided by the byte counter: a stream whose length is not a
+    multiple of the block size ends in a partial block, which is never a valid pad. -/
 def Writer.final (w : Writer) : Option Bytes :=
+  let b := w.cache
+  if b.length ≠ w.blockSize then none
+  else if b.length = 0 then some w.out
+  else if w.written % w.blockSize ≠ 0 then none
+  else
+    let k := (b.getLastD 0).toNat
+    if k > w.blockSize ∨ k = 0 then none
+    else if (b.drop (b.length - k)).all (fun c => c.toNat == k) then some (w.out ++ b.take (b.length - k))
+    else none
+
+def writeAll (bs : Nat) (ws : List Bytes) : Option Bytes := (ws.foldl Writer.write (newWriter bs)).final
+
+/-- `Final()` of the code as found (before the repair): no byte counter, only the sliding window is looked at
+    (negative witness only) -/
+def Writer.finalOld (w : Writer) : Option Bytes :=
   let b := w.cache
   if b.length ≠ w.blockSize then none
   else if b.length = 0 then some w.out
@@ -109,7 +130,7 @@ def Writer.final (w : Writer) : Option Bytes :=
     else if (b.drop (b.length - k)).all (fun c => c.toNat == k) then some (w.out ++ b.take (b.length - k))
     else none
 
-def writeAll (bs : Nat) (ws : List Bytes) : Option Bytes := (ws.foldl Writer.write (newWriter bs)).final
+def writeAllOld (bs : Nat) (ws : List Bytes) : Option Bytes := (ws.foldl Writer.write (newWriter bs)).finalOld
 
 -- the pinned commit's reader (negative witness only) ---------------------------------------------
 
